@@ -204,7 +204,8 @@ def gen_history(seeds, libids, round_no, i, nlang_hint=None):
             elif x < 0.75:
                 body = gen_body(rng, tag, allow_tplus=tplus, from_yaml=True) or ["only u%sk0;" % tag]
                 ops.append({"op": "SET_DECL", "lang": rng.choice([l for l in langs if l != "lua"]),
-                            "pick": rng.random(), "body": body, "none_for_blank": rng.random() < 0.5})
+                            "pick": rng.random(), "body": body, "none_for_blank": rng.random() < 0.4,
+                            "as_string": rng.random() < 0.3})
             elif x < 0.88:
                 ops.append({"op": "EDIT_OUTSIDE", "lang": lang, "pick": rng.random(),
                             "text": ["stray text outside markers o%s" % tag,
@@ -214,8 +215,17 @@ def gen_history(seeds, libids, round_no, i, nlang_hint=None):
             else:
                 ops.append({"op": "UNSET", "lang": lang, "pick": rng.random()})
         ops.append({"op": "REGEN"})
+    # swarm: options that must not influence whether a user body is consulted
+    options = {}
+    for name in ("debug", "doxygen", "literalinclude", "F_force_wrapper", "C_force_wrapper"):
+        if rng.random() < 0.25:
+            options[name] = rng.choice([True, False])
+    if rng.random() < 0.2:
+        options["C_line_length"] = rng.choice([40, 60, 120])
+    if rng.random() < 0.2:
+        options["F_line_length"] = rng.choice([50, 100])
     return {"prop": "C12", "round": round_no, "index": i, "lib": lib, "workflow": workflow,
-            "langs": langs, "ops": ops}
+            "langs": langs, "ops": ops, "options": options}
 
 
 # ------------------------------------------------------------------ executor (host child)
@@ -381,6 +391,7 @@ def execute_history_c12(spec, camp):
     fs = SimFS()
     env = history.default_env()
     ydict = copy.deepcopy(lib["yaml"])
+    ydict.setdefault("options", {}).update(spec.get("options") or {})
     fname = lib["fname"]
     store = Store()
     result = {"hid": spec.get("hid"), "violations": [], "runs": [], "probes": {}, "error": None,
@@ -414,6 +425,7 @@ def execute_history_c12(spec, camp):
     dirty_since_regen = set()  # kinds of ops since last REGEN
     decl_block = {}  # (path, lang) -> block name found for that declaration splicer
     decl_none = set()  # declaration splicers written with None for blank lines
+    decl_string = set()  # declaration splicers written as one newline-delimited string (YAML block scalar)
     cycle = 0
     outside_tokens = []
 
@@ -489,6 +501,8 @@ def execute_history_c12(spec, camp):
             store.decl[(path, lang)] = list(op["body"])
             if op.get("none_for_blank"):
                 decl_none.add((path, lang))
+            elif op.get("as_string"):
+                decl_string.add((path, lang))
             probe("set_decl")
             events.append(("SET_DECL", lang, path))
         elif kind == "UNSET":
@@ -509,6 +523,8 @@ def execute_history_c12(spec, camp):
                 del ydict["declarations"][i]
                 store.decl = {((p[0] - 1,) + p[1:] if p[0] > i else p, l): b for (p, l), b in store.decl.items()}
                 decl_block = {((p[0] - 1,) + p[1:] if p[0] > i else p, l): n for (p, l), n in decl_block.items()}
+                decl_none = set(((p[0] - 1,) + p[1:] if p[0] > i else p, l) for (p, l) in decl_none)
+                decl_string = set(((p[0] - 1,) + p[1:] if p[0] > i else p, l) for (p, l) in decl_string)
                 probe("evolve")
                 events.append(("EVOLVE", i))
         if kind != "REGEN":
@@ -525,8 +541,11 @@ def execute_history_c12(spec, camp):
             for i in path:
                 node = node["declarations"][i]
             # an empty "-" entry of a YAML list is None; documented to mean a blank line
-            node.setdefault("splicer", {})[lang] = [
-                (None if (b == "" and (path, lang) in decl_none) else b) for b in body]
+            if (path, lang) in decl_string:
+                node.setdefault("splicer", {})[lang] = "\n".join(body) + "\n"
+            else:
+                node.setdefault("splicer", {})[lang] = [
+                    (None if (b == "" and (path, lang) in decl_none) else b) for b in body]
         # splicer_code
         if any(store.code.values()):
             sc = {}
